@@ -180,7 +180,7 @@ def run(chk):
     # CLI level: `gwf run [patterns]` (plugin glue, fnmatch selection, TrackingBackend) against a simulated cluster
     import history_check as HC
     rule, assume = chk.rule, chk.assumptions
-    HC.run_prop(chk, "C02", ["C05", "C07", "C07:local", "C05:local", "C07:sge", "C07:lsf"], 120 if chk.tier == "quick" else 1800, rule, assume, lambda r: True)
+    HC.run_prop(chk, "C02", ["C05", "C07", "C07:local", "C01", "C05:local", "C07:sge", "C01:lsf", "C07:lsf"], 120 if chk.tier == "quick" else 1800, rule, assume, lambda r: True)
 
 
 def replay(chk, data):
